@@ -42,20 +42,22 @@ Kinds == {"none", "garbage", "otherkey", "sess"}
 Emails == {"match", "nomatch", "empty"}
 
 NoCookie == [kind |-> "none", slugOk |-> FALSE, hostOk |-> FALSE, life |-> -1, ref |-> -1, val |-> -1,
-             grace |-> NoGrace, email |-> "empty", rt |-> FALSE, tok |-> "none"]
+             grace |-> NoGrace, email |-> "empty", rt |-> FALSE, tok |-> "none", grp |-> "in"]
 Bad(k) == [NoCookie EXCEPT !.kind = k]
 
-Sess(sl, ho, li, re, va, gr, em, rt, tk) ==
+\* grp: whether the groups recorded in the session (the user's allowed groups as of the last check) contain one
+\* of the upstream's allowed groups; "in" by convention when the upstream has no group rule
+Sess(sl, ho, li, re, va, gr, em, rt, tk, gp) ==
    [kind |-> "sess", slugOk |-> sl, hostOk |-> ho, life |-> li, ref |-> re, val |-> va,
-    grace |-> gr, email |-> em, rt |-> rt, tok |-> tk]
+    grace |-> gr, email |-> em, rt |-> rt, tok |-> tk, grp |-> gp]
 
 \* cookie contents the one-step (forged) exploration starts from
 RemVals(top) == {-1, 0, top}
 ForgedCookies ==
    { Bad(k) : k \in {"none", "garbage", "otherkey"} } \cup
-   { Sess(sl, ho, li, re, va, gr, em, rt, "old") :
+   { Sess(sl, ho, li, re, va, gr, em, rt, "old", gp) :
        sl \in BOOLEAN, ho \in BOOLEAN, li \in RemVals(LifeTTL), re \in RemVals(2), va \in RemVals(ValidTTL),
-       gr \in {NoGrace, 0, GraceTTL, GraceTTL + 1}, em \in Emails, rt \in BOOLEAN }
+       gr \in {NoGrace, 0, GraceTTL, GraceTTL + 1}, em \in Emails, rt \in BOOLEAN, gp \in {"in", "out"} }
 
 Requests ==
    { [kind |-> k, path |-> p, xhr |-> x] :
@@ -92,7 +94,7 @@ RefreshBranch(c, pol, a) ==
    ELSE CASE a.refresh = "ok" ->
                LET g == GroupStep(pol, a)
                    calls == IF pol.group THEN {"refresh", "profile"} ELSE {"refresh"}
-               IN CASE g = "ok" -> PerRequest(pol, [c EXCEPT !.ref = a.rexp, !.grace = NoGrace, !.tok = "new"], TRUE, calls)
+               IN CASE g = "ok" -> PerRequest(pol, [c EXCEPT !.ref = a.rexp, !.grace = NoGrace, !.tok = "new", !.grp = "in"], TRUE, calls)
                     [] g = "unavail" ->
                          IF WithinGrace(c)
                          THEN PerRequest(pol, [c EXCEPT !.ref = ValidTTL, !.grace = GraceAfter(c)], TRUE, calls)
@@ -109,7 +111,7 @@ ValidateBranch(c, pol, a) ==
    CASE a.validate = "ok" ->
           LET g == GroupStep(pol, a)
               calls == IF pol.group THEN {"validate", "profile"} ELSE {"validate"}
-          IN CASE g = "ok" -> PerRequest(pol, [c EXCEPT !.val = ValidTTL, !.grace = NoGrace], TRUE, calls)
+          IN CASE g = "ok" -> PerRequest(pol, [c EXCEPT !.val = ValidTTL, !.grace = NoGrace, !.grp = "in"], TRUE, calls)
                [] g = "unavail" ->
                     IF WithinGrace(c)
                     THEN PerRequest(pol, [c EXCEPT !.val = ValidTTL, !.grace = GraceAfter(c)], TRUE, calls)
@@ -223,8 +225,14 @@ Authorized(c, pol, a, o) ==
          /\ PrimaryCalled(c, o)
          /\ Primary(c, a) \in {"ok"} \cup Unavail
          /\ (pol.group /\ Primary(c, a) = "ok") => ("profile" \in o.calls /\ a.profile \in {"member"} \cup Unavail)
+   \* "whose user satisfies at least one of the upstream's allow rules": an e-mail rule matches, or the groups
+   \* recorded at the last check (or confirmed by the check made now) contain an allowed group.  On an upstream
+   \* with group rules ONLY the recorded groups are not demanded: membership is established at checks (C04
+   \* bounds their age), and no history of the real proxy produces such a session without them.
    /\ \/ pol.email /\ c.email = "match"
-      \/ pol.group
+      \/ pol.group /\ c.grp = "in"
+      \/ pol.group /\ Due(c) # "none" /\ Primary(c, a) = "ok" /\ "profile" \in o.calls /\ a.profile = "member"
+      \/ pol.group /\ ~pol.email
 
 R_C01_Mediation(c, pol, req, a, o) == (o.reached /\ NonSkip(req)) => Authorized(c, pol, a, o)
 R_C01_AuthOnly202(c, pol, req, a, o) == (req.kind = "authonly" /\ o.status = 202) => Authorized(c, pol, a, o)
@@ -331,13 +339,13 @@ Init ==
    /\ pol \in Policies
    /\ last = NoStep
    /\ IF Forge
-      THEN ck \in ForgedCookies /\ gh = GhostsOfForged(ck)
+      THEN ck \in ForgedCookies /\ (pol.group \/ ck.grp = "in") /\ gh = GhostsOfForged(ck)
       ELSE ck = NoCookie /\ gh = NoGhosts
 
 \* OAuthCallback after a successful redeem (ProxyLogin.tla covers its gates)
 Login(e, em) ==
    /\ ~Forge
-   /\ ck' = Sess(TRUE, TRUE, LifeTTL, e, ValidTTL, NoGrace, em, TRUE, "old")
+   /\ ck' = Sess(TRUE, TRUE, LifeTTL, e, ValidTTL, NoGrace, em, TRUE, "old", "in")
    /\ gh' = FreshGhosts
    /\ last' = [ev |-> "login", e |-> e, email |-> em]
    /\ UNCHANGED pol
